@@ -165,7 +165,7 @@ def _shards(tier):
             out.append({"first": a, "three": True})
     # odd lines inside generated methods (blocks, Watch bodies)
     gens = [{"slots": 2, "body": 2, "blocks": 1, "first": "block", "watch": False}] if tier == "quick" else \
-           [{"slots": 2, "body": 2, "blocks": 2, "first": "block", "watch": True}, {"slots": 2, "body": 2, "blocks": 1, "first": "watch", "watch": True}]
+           [{"slots": 2, "body": 2, "blocks": 1, "first": "block", "watch": True}, {"slots": 2, "body": 2, "blocks": 1, "first": "watch", "watch": True}]
     firsts = [1, 5, 12, 23] if tier == "quick" else [i for i in range(n) if "\n" not in CATALOGUE[i] or CATALOGUE[i].startswith(("Watch", "Block"))]
     for g in gens:
         for a in firsts:
